@@ -106,11 +106,39 @@ PascalProtoComplaints ==
                IF Len(p.args) = Len(c.args) /\ PascalRetOK(p, c.ret) /\ \A k \in 1..Len(c.args) : PascalArgOK(p.args[k], c.args[k]) THEN {}
                ELSE {[binding |-> "pascal", name |-> p.name, declared |-> [ret |-> p.ret, args |-> p.args], c |-> [ret |-> c.ret, args |-> c.args], why |-> "external declaration differs from the C prototype"]}
         : i \in 1..Len(Bind.pascal.protos) }
+\* ---- IDL: the DLM file declares every routine with its minimum and maximum number of arguments.  IDL is case-insensitive; the routine takes the
+\* C function's arguments except the error slot, the crystal array (always the built-in one) and the element count of a returned list.
+CByUpper == [u \in { CProtos[i].upper : i \in 1..Len(CProtos) } |-> CProtos[CHOOSE i \in 1..Len(CProtos) : CProtos[i].upper = u]]
+IdlArity(c) == Cardinality({ k \in 1..Len(c.args) : DropConst(c.args[k]) \notin {"xrl_error**", "Crystal_Array*", "int*"} })
+IdlDlmComplaints ==
+  UNION { LET d == Bind.idl.dlm[i] IN
+          IF d[2] \notin DOMAIN CByUpper THEN {}
+          ELSE LET c == CByUpper[d[2]] n == IdlArity(c) IN
+               \* (FUNCTION / PROCEDURE is not compared: a C status result may legitimately become an IDL error, as in ATOMIC_FACTORS)
+               IF d[3] = ToString(n) /\ d[4] = ToString(n) THEN {}
+               ELSE {[binding |-> "idl", name |-> c.name, declared |-> d, c |-> [ret |-> c.ret, args |-> c.args], why |-> "DLM declaration (min, max arguments) does not fit the C prototype"]}
+        : i \in 1..Len(Bind.idl.dlm) }
+\* ---- enumerations: a C enumerator without "= value" is its predecessor plus one (the first is 0); Fortran ENUM, BIND(C) and Pascal enumerated
+\* types number the same way.  The bindings must declare the same names with the same numbers, in any order.
+IsDigitStr(t) == t # "" /\ \A i \in 1..Len(t) : SubSeq(t, i, i) \in {"0","1","2","3","4","5","6","7","8","9"}
+RECURSIVE DecVal(_)
+DecVal(t) == IF t = "" THEN 0 ELSE 10 * DecVal(SubSeq(t, 1, Len(t) - 1)) + (CHOOSE d \in 0..9 : ToString(d) = SubSeq(t, Len(t), Len(t)))
+RECURSIVE Numbered(_, _, _)
+Numbered(items, i, prev) == IF i > Len(items) THEN {} ELSE
+  LET v == IF IsDigitStr(items[i][2]) THEN DecVal(items[i][2]) ELSE IF items[i][2] = "" THEN prev + 1 ELSE 0 - 999 IN {<<items[i][1], v>>} \cup Numbered(items, i + 1, v)
+EnumOf(items) == Numbered(items, 1, 0 - 1)
+EnumComplaints ==
+  UNION { IF EnumOf(Bind.enums[b]) = EnumOf(Bind.enums.c) THEN {}
+          ELSE {[binding |-> b, enum |-> "xrl_error_code", declared |-> Bind.enums[b], c |-> Bind.enums.c, why |-> "enumeration is numbered differently from the C header"]} : b \in {"fortran", "pascal"} }
+  \cup (IF Len(Bind.enums.c) >= 6 THEN {} ELSE {[binding |-> "c", enum |-> "xrl_error_code", why |-> "enumeration not found in xraylib-error.h"]})
+\* ---- the libtool triple current:revision:age is maintained by hand in two build systems
+LibtoolComplaints == IF Bind.libtool["configure.ac"] = Bind.libtool["meson.build"] /\ \A k \in 1..3 : Bind.libtool["meson.build"][k] # "" THEN {}
+                     ELSE {[file |-> "configure.ac / meson.build", autotools |-> Bind.libtool["configure.ac"], meson |-> Bind.libtool["meson.build"], why |-> "libtool version (current, revision, age) differs between the two build systems"]}
 \* ---- exports and versions
 HeaderFunctions == { CProtos[i].name : i \in { i \in 1..Len(CProtos) : CProtos[i].header # "xraylib-error-private.h" } }
 ExportComplaints == { [name |-> n, why |-> "declared in a public header but not exported by the built library"] : n \in HeaderFunctions \ Range(Exports) }
 HeaderVersion == ToString(MiscMacro.XRAYLIB_MAJOR) \o "." \o ToString(MiscMacro.XRAYLIB_MINOR) \o "." \o ToString(MiscMacro.XRAYLIB_MICRO)
 VersionComplaints == { [file |-> Versions[i][1], version |-> Versions[i][2], header |-> HeaderVersion, why |-> "version differs from xraylib.h"] : i \in { i \in 1..Len(Versions) : Versions[i][2] # HeaderVersion } }
 AllComplaints == UNION { ConstComplaints(b) : b \in {"fortran", "pascal", "idl", "java"} } \cup UNION { Missing(b) : b \in {"fortran", "pascal", "idl", "java", "cython"} }
-                 \cup ByInclusion \cup CythonProtoComplaints \cup FortranProtoComplaints \cup PascalProtoComplaints \cup ExportComplaints \cup VersionComplaints
+                 \cup ByInclusion \cup CythonProtoComplaints \cup FortranProtoComplaints \cup PascalProtoComplaints \cup IdlDlmComplaints \cup EnumComplaints \cup LibtoolComplaints \cup ExportComplaints \cup VersionComplaints
 ==============================================================================
